@@ -207,7 +207,12 @@ Proof.
   assert (Hupd : forall insts i it it', nth_opt insts i = Some it -> is_live_original it' = is_live_original it ->
             length (filter is_live_original (upd insts i it')) = length (filter is_live_original insts)).
   { intros. now apply (filter_upd_same_flags insts i it it'). }
-  destruct b as [i m a|i|i|i|i|i|i|i|i m a|n| |i m a|i j|i m a].
+  destruct b as [i m a|i|i|i|i|i|i|i|i m a|n| |i m a|i j|i m a|i m a].
+  15: { (* an observed call: the world changes as for a call *)
+    destruct (live_inst w i) as [it|] eqn:Hl; [|cbn; lia]. apply live_inst_nth in Hl as [Hn _].
+    destruct (matcher_panics (w_cfg w) (w_state w) m a) as [sp|]; [cbn [fst]; unfold originals, set_state; cbn [w_insts]; lia|].
+    destruct (call _ _ _ _ _ _ _ _) as [s' act]. cbn [fst]. unfold after_call, originals.
+    destruct act; cbn; try lia; rewrite (Hupd _ i it); try lia; try assumption; reflexivity. }
   14: { (* a value that calls the mock from its Drop is lent *)
     destruct (live_inst w i) as [it|] eqn:Hl; [|cbn; lia]. apply live_inst_nth in Hl as [Hn _].
     cbn. unfold originals. cbn. rewrite (Hupd _ i it); [lia|assumption|reflexivity]. }
@@ -357,12 +362,12 @@ Proof. intros H1 Hn Ho. rewrite (originals_kill w i it Hn), Ho, H1. reflexivity.
 Theorem dead_instance_inert w x b :
   (forall i, match b with
              | BCall j _ _ | BCallOwn j _ _ | BCallD j _ _ => j = i | BClone j | BDrop j | BVerify j | BNvid j | BReport j
-             | BLend j | BCount j => j = i | BCloneFrom j _ => j = i | BLendCall j _ _ => j = i | BArm _ | BLive => False end ->
+             | BLend j | BCount j => j = i | BCloneFrom j _ => j = i | BLendCall j _ _ | BCallM j _ _ => j = i | BArm _ | BLive => False end ->
              live_inst w i = None) ->
   (match b with BArm _ | BLive => False | _ => True end) ->
   step w {| ev_ctx := x; ev_base := b |} = (w, "invalid"%string).
 Proof.
   intros H Hb. unfold step, step_core, releasing. cbn [ev_base ev_ctx].
-  destruct b as [i m a|i|i|i|i|i|i|i|i m a|n| |i m a|i j|i m a]; try contradiction; try now rewrite (H i eq_refl).
+  destruct b as [i m a|i|i|i|i|i|i|i|i m a|n| |i m a|i j|i m a|i m a]; try contradiction; try now rewrite (H i eq_refl).
   rewrite (H i eq_refl). destruct (Nat.eqb i j); reflexivity.
 Qed.
